@@ -289,3 +289,37 @@ Example C16_mimetype_params_example :
     = Some [116; 101; 120; 116; 47; 99; 115; 118; 59; 32; 120; 61; 49; 59; 32; 121; 61; 34; 97; 32; 98; 34].
 Proof. vm_compute. repeat split. Qed.
 Print Assumptions C16_mimetype_params_example.
+
+(* ------------------------------------------------------------------ scalar header properties, over the regenerated table *)
+(* For EVERY row (attribute, header name, codec) of the table regenerated from the header_property(...) assignments of
+   sansio/response.py whose codec is str, int, age or set-like: assigning a value the codec accepts, whose dumped text has no
+   newline, leaves exactly the dumped text under the header name, reads back as the value in normal form, and deleting the
+   attribute removes the header and reads back as None *)
+Theorem C16_header_property_assign_read : forall h attr name c v text,
+  prop_lookup attr header_props = Some (name, c) -> hp_dump c v = Some text -> has_newline text = false ->
+  snd (hp_set h attr v) = None /\
+  hp_text (fst (hp_set h attr v)) attr = OStr text /\
+  hp_get (fst (hp_set h attr v)) attr = hp_normal c v /\
+  hp_get (hp_del (fst (hp_set h attr v)) attr) attr = ONone /\ hp_text (hp_del (fst (hp_set h attr v)) attr) attr = ONone.
+Proof. exact hp_assign_read. Qed.
+Print Assumptions C16_header_property_assign_read.
+
+(* the rows the theorem above does not speak about are exactly date, expires, last_modified (C16_date_assign_read) and
+   cross_origin_opener_policy, cross_origin_embedder_policy (harness only) *)
+Theorem C16_header_property_coverage :
+  map (fun p => fst p) (filter (fun p => negb (codec_modelled (snd (snd p)))) header_props)
+  = [[100; 97; 116; 101]; [101; 120; 112; 105; 114; 101; 115]; [108; 97; 115; 116; 95; 109; 111; 100; 105; 102; 105; 101; 100];
+     [99; 114; 111; 115; 115; 95; 111; 114; 105; 103; 105; 110; 95; 111; 112; 101; 110; 101; 114; 95; 112; 111; 108; 105; 99; 121];
+     [99; 114; 111; 115; 115; 95; 111; 114; 105; 103; 105; 110; 95; 101; 109; 98; 101; 100; 100; 101; 114; 95; 112; 111; 108; 105; 99; 121]]
+  /\ forallb (fun p => match snd (snd p) with CDate | CEnum => true | c => codec_modelled c end) header_props = true.
+Proof. exact hp_table_coverage. Qed.
+Print Assumptions C16_header_property_coverage.
+
+(* access_control_allow_methods = [GET, POST] on a response that already carries the header *)
+Example C16_header_property_example :
+  let attr := [97; 99; 99; 101; 115; 115; 95; 99; 111; 110; 116; 114; 111; 108; 95; 97; 108; 108; 111; 119; 95; 109; 101; 116; 104; 111; 100; 115] in
+  let st := hp_set [([65; 99; 99; 101; 115; 115; 45; 67; 111; 110; 116; 114; 111; 108; 45; 65; 108; 108; 111; 119; 45; 77; 101; 116; 104; 111; 100; 115], [80; 85; 84])]
+              attr (PList [[71; 69; 84]; [80; 79; 83; 84]]) in
+  hp_text (fst st) attr = OStr [71; 69; 84; 44; 32; 80; 79; 83; 84] /\ hp_get (fst st) attr = OList [[71; 69; 84]; [80; 79; 83; 84]].
+Proof. vm_compute. split; reflexivity. Qed.
+Print Assumptions C16_header_property_example.
